@@ -11,7 +11,7 @@ EXTENDS Integers, Sequences, FiniteSets
 CONSTANTS N, W, None,
           Rule      \* which statement of each rule is in force; StdRule is the definition, every other value is a
                     \* deliberate mis-statement used only by LachesisAlt.tla to search for separating DAGs
-StdRule == [roots |-> "span", tie |-> "yes", quorum |-> "ge", fcfork |-> "check", fccount |-> "nofork", first |-> "one"]
+StdRule == [roots |-> "span", tie |-> "yes", quorum |-> "ge", fcfork |-> "check", fccount |-> "nofork", first |-> "one", cap |-> "none", shortcut |-> "none"]
 V == 1..N
 RECURSIVE SumW(_)
 SumW(S) == IF S = {} THEN 0 ELSE LET v == CHOOSE x \in S : TRUE IN W[v] + SumW(S \ {v})
@@ -34,9 +34,16 @@ RootsAt(evf, f) == IF Rule.roots = "span" THEN {e \in DOMAIN evf : SpFrame(evf, 
                    ELSE {e \in DOMAIN evf : SpFrame(evf, e) < evf[e].fr /\ f = evf[e].fr}
 
 \* frame rule for a new event with ancestry A (including itself) whose self-parent has frame sf
-FCQ(evf, ancf, A, f) == SumW({evf[r].cr : r \in {r \in RootsAt(evf, f) : FCset(evf, ancf, A, r)}}) >= Quorum
+\* highest frame among the (other) ancestors of the new event: evf holds frame 0 for the new event itself while its frame is computed
+MaxAncFrame(evf, A) == LET S == {evf[x].fr : x \in A} IN CHOOSE m \in S : \A s \in S : s <= m
+FCQ(evf, ancf, A, f) ==
+  \* (mis-statement "anc-above": forkless cause treated as transitive - an ancestor already above frame f is taken as proof)
+  \/ (Rule.shortcut = "anc-above" /\ RootsAt(evf, f) # {} /\ MaxAncFrame(evf, A) > f)
+  \/ SumW({evf[r].cr : r \in {r \in RootsAt(evf, f) : FCset(evf, ancf, A, r)}}) >= Quorum
 RECURSIVE Climb(_,_,_,_,_)
-Climb(evf, ancf, A, f, cap) == IF f < cap /\ FCQ(evf, ancf, A, f) THEN Climb(evf, ancf, A, f + 1, cap) ELSE f
+Climb(evf, ancf, A, f, cap) ==
+  \* (mis-statement "anc+1": an event may get ahead of the highest frame it observes by one frame at most)
+  IF f < cap /\ (Rule.cap = "none" \/ f < MaxAncFrame(evf, A) + 1) /\ FCQ(evf, ancf, A, f) THEN Climb(evf, ancf, A, f + 1, cap) ELSE f
 \* the highest allowed frame (what Build assigns), at most 100 above the self-parent's
 MaxAllowed(evf, ancf, A, sf) == LET f == Climb(evf, ancf, A, sf, sf + 100) IN IF f = 0 THEN 1 ELSE f
 \* (mis-statement "climb": an event without self-parent climbs from frame 1 like any other event)
